@@ -358,6 +358,9 @@ def _as_optdict(E, v):
 
 def call_contract(E, qual, args, node, self_first=False):
     c0 = E.contracts[qual]
+    if not E.spec_mode:
+        # proof hook just before a call of a function under contract (its precondition is about to become an obligation)
+        E.run_hook(('before_call', qual.split('.')[-1]), node)
     if self_first:
         slf = args.pos[0]
         bound = bind_params(E, qual, CallArgs(list(args.pos[1:]), dict(args.kw), list(args.star_kw)), node)
